@@ -479,7 +479,7 @@ func execStream(t *hx.Toks) string {
 func genStreams(w *bufio.Writer, rng *hx.Rng, tier string) {
 	n := 250
 	if tier == "thorough" {
-		n = 6000
+		n = 5000
 	}
 	// fixed shapes: put-during-detach, pop/attach window with puts, time-out
 	fixed := []string{
